@@ -259,7 +259,10 @@ def lemma_step(work, invs, module="Lemmas.tla"):
     done = []
     for inv in invs:
         od = work.path("apalache-" + inv)
-        rc, so, se = vlib.sh(["apalache-mc", "check", "--length=1", "--inv=" + inv, "--out-dir=" + od, module], timeout=300, cwd=work.dir)
+        jt = work.path("apalache-jtmp")
+        os.makedirs(jt, exist_ok=True)
+        rc, so, se = vlib.sh(["apalache-mc", "check", "--length=1", "--inv=" + inv, "--out-dir=" + od, module], timeout=300, cwd=work.dir,
+                             env={"TMPDIR": jt})      # the launcher makes its own SANY* temp dir with mktemp -t
         ok = "The outcome is: NoError" in so
         done.append({"lemma": inv, "discharged": ok, "tool": "apalache-mc 0.58 --length=1", "note": "" if ok else (so + se)[-300:]})
         if "The outcome is: Error" in so:
